@@ -325,6 +325,13 @@ class Interp:
             if not isinstance(base, Ref):
                 raise Unsupported('write through non-ref')
             if base.obj is not None:
+                # (*r)[i] = v with r a reference to a vector / slice object
+                if isinstance(base.obj, VecV) and len(rest) == 2 and isinstance(rest[1], dict) and 'ix' in rest[1]:
+                    n = fr.locals[rest[1]['ix']].value()
+                    if n >= len(base.obj.items):
+                        raise Panic('index %d out of bounds (len %d)' % (n, len(base.obj.items)))
+                    base.obj.items[n] = v
+                    return
                 raise Unsupported('write through object ref')
             return self.write_place(base.frame, _extend(base.place, rest[1:]), v)
         cont = base
